@@ -157,3 +157,42 @@ Theorem C08_coll_replace_settled :
   forall (trim is_set : bool) (l : list Z), CollReplace.coll_replace false trim is_set l l = CollReplace.NoChange.
 Proof. exact CollReplaceProofs.settled_no_change. Qed.
 Print Assumptions C08_coll_replace_settled.
+
+(* the token comparison that decides whether an update is pending (Model/Tokens.v mirrors _utils.normalize, simple_token.__eq__ and the
+   four call sites): the code written for a value is a fixpoint.  wf_canon: every token is a one-line string that is the repr of its own
+   value (what code_repr writes; py_repr_self_repr / bytes_repr_self_repr show that repr(str) / repr(bytes) qualify) or a token
+   that is not merged and equals itself, and no two one-line strings stand side by side *)
+From V Require Model.StrLit Model.Tokens Proofs.TokensProofs.
+Theorem C08_update_fixpoint_norm :
+  forall (printable : StrLit.cp -> bool) (c : list Tokens.tok),
+  TokensProofs.wf_canon printable c -> Tokens.needs_update_norm printable c c = Some false.
+Proof. exact TokensProofs.update_fixpoint_norm. Qed.
+Print Assumptions C08_update_fixpoint_norm.
+
+Theorem C08_update_fixpoint_leaf :
+  forall (printable : StrLit.cp -> bool) (c : list Tokens.tok),
+  TokensProofs.wf_canon printable c -> TokensProofs.no_tc c -> Tokens.needs_update_leaf printable c c = Some false.
+Proof. exact TokensProofs.update_fixpoint_leaf. Qed.
+Print Assumptions C08_update_fixpoint_leaf.
+
+(* the side condition no_tc is needed: a leaf whose code holds `,)` (a set of 1-tuples) is compared with un-normalized tokens by
+   ValueAdapter / UndecidedValue and counts as update on every run; the replacement is the text that is already there, so no file changes *)
+Theorem C08_leaf_trailing_comma_update_refuted :
+  exists c, TokensProofs.wf_canon (fun _ => true) c /\ Tokens.needs_update_leaf (fun _ => true) c c = Some true
+            /\ Tokens.needs_update_norm (fun _ => true) c c = Some false.
+Proof. exact TokensProofs.leaf_trailing_comma_refuted. Qed.
+Print Assumptions C08_leaf_trailing_comma_update_refuted.
+
+Theorem C08_canonical_strings_qualify :
+  forall (printable : StrLit.cp -> bool) (s : StrLit.str),
+  (Forall (fun c => (c <= 1114111)%N) s -> TokensProofs.self_repr printable (Tokens.Tok 3 (StrLit.py_repr printable s)))
+  /\ (Forall (fun c => (c < 256)%N) s -> TokensProofs.self_repr printable (Tokens.Tok 3 (StrLit.bytes_repr s))).
+Proof. intros p s. split; [apply TokensProofs.py_repr_self_repr | apply TokensProofs.bytes_repr_self_repr]. Qed.
+Print Assumptions C08_canonical_strings_qualify.
+
+Theorem C08_update_fixpoint_example :
+  let c := [TokensProofs.t_op [91]; Tokens.Tok 3 (StrLit.py_repr (fun _ => true) [105; 116; 34; 115]); TokensProofs.t_op [44];
+            Tokens.Tok 3 (StrLit.bytes_repr [0]); TokensProofs.t_op [93]]%N in
+  TokensProofs.wf_canon (fun _ => true) c /\ TokensProofs.no_tc c /\ Tokens.needs_update_leaf (fun _ => true) c c = Some false.
+Proof. exact TokensProofs.wf_canon_example. Qed.
+Print Assumptions C08_update_fixpoint_example.
